@@ -114,5 +114,159 @@ func factsC13(r *Repo) []Fact {
 		out = append(out, boolFact("failedTaskReportedAsIs", single >= 1 && other == 0,
 			"compose/"+file+": resolveInterruptCompletedTasks returns wrapGraphNodeError(task.nodeKey, task.err) of one failed task"))
 	}
+
+	// stateLockSites: every `<x>.Lock()` statement in compose/state.go (functions and the function
+	// literals inside them), flag = the statement that follows it in the same block is
+	// `defer <x>.Unlock()`.  User code (state handlers, the handler given to ProcessState) runs
+	// between the two: released by defer, a panic of that code cannot leave the state locked.
+	{
+		var sites []string
+		inProcessState := false
+		if f := cp.Files["state.go"]; f != nil {
+			for _, d := range f.Decls {
+				fd, ok := d.(*ast.FuncDecl)
+				if !ok || fd.Body == nil {
+					continue
+				}
+				idx := 0
+				ast.Inspect(fd.Body, func(n ast.Node) bool {
+					var list []ast.Stmt
+					switch b := n.(type) {
+					case *ast.BlockStmt:
+						list = b.List
+					case *ast.CaseClause:
+						list = b.Body
+					case *ast.CommClause:
+						list = b.Body
+					default:
+						return true
+					}
+					for i, s := range list {
+						mu, ok := c13LockCall(s)
+						if !ok {
+							continue
+						}
+						released := false
+						if i+1 < len(list) {
+							if ds, ok := list[i+1].(*ast.DeferStmt); ok {
+								if se, ok := ds.Call.Fun.(*ast.SelectorExpr); ok && se.Sel.Name == "Unlock" && exprString(se.X) == mu && len(ds.Call.Args) == 0 {
+									released = true
+								}
+							}
+						}
+						b := "false"
+						if released {
+							b = "true"
+						}
+						sites = append(sites, "("+leanStr(fmt.Sprintf("compose/state.go:%s#%d", fd.Name.Name, idx))+", "+b+")")
+						idx++
+						if fd.Name.Name == "ProcessState" {
+							inProcessState = true
+						}
+					}
+					return true
+				})
+			}
+		}
+		f := Fact{Name: "stateLockSites", Type: "List (String × Bool)", Value: "[" + strings.Join(sites, ", ") + "]",
+			Where: "compose/state.go: every <mu>.Lock() statement; true = immediately followed by defer <mu>.Unlock()"}
+		if len(sites) == 0 || !inProcessState {
+			f.Unknown = true
+			f.Note = "no Lock() statement found in compose/state.go ProcessState"
+		}
+		out = append(out, f)
+	}
+
+	// executorRecoverHandlerClean: the deferred function of taskManager.executor, which turns a
+	// panic of the task into the task's error and queues the finished task, performs nothing that
+	// can itself panic: only assignments, `if <ident> != nil`, and calls from a fixed list (recover,
+	// safe.NewPanicErr, debug.Stack, the task list / lock operations of the manager, verif hooks).
+	if fd, file := cp.Func("taskManager", "executor"); fd == nil || fd.Body == nil {
+		out = append(out, unknownFact("executorRecoverHandlerClean", "Bool", "false", "compose", "taskManager.executor not found"))
+	} else {
+		recv := ""
+		if len(fd.Recv.List[0].Names) > 0 {
+			recv = fd.Recv.List[0].Names[0].Name
+		}
+		var handler *ast.FuncLit
+		for _, s := range fd.Body.List {
+			if d, ok := s.(*ast.DeferStmt); ok {
+				if fl, ok := d.Call.Fun.(*ast.FuncLit); ok && containsCall(fl.Body, "recover") {
+					handler = fl
+				}
+			}
+		}
+		if handler == nil {
+			out = append(out, unknownFact("executorRecoverHandlerClean", "Bool", "false", "compose/"+file, "no deferred func with recover() in taskManager.executor"))
+		} else {
+			allowed := map[string]bool{
+				"recover": true, "safe.NewPanicErr": true, "debug.Stack": true,
+				recv + ".mu.Lock": true, recv + ".mu.Unlock": true, recv + ".l.PushBack": true, recv + ".updateChan": true,
+			}
+			clean, queued := true, false
+			why := ""
+			bad := func(what string) {
+				if clean {
+					why = what
+				}
+				clean = false
+			}
+			ast.Inspect(handler.Body, func(n ast.Node) bool {
+				switch v := n.(type) {
+				case *ast.CallExpr:
+					name := exprString(v.Fun)
+					if name == recv+".l.PushBack" {
+						queued = true
+					}
+					if !allowed[name] && !strings.HasPrefix(name, "verif") {
+						bad("call " + name)
+					}
+				case *ast.TypeAssertExpr:
+					bad("type assertion")
+				case *ast.IndexExpr:
+					bad("index expression")
+				case *ast.SliceExpr:
+					bad("slice expression")
+				case *ast.StarExpr:
+					bad("pointer dereference")
+				case *ast.SendStmt:
+					bad("channel send")
+				case *ast.UnaryExpr:
+					if v.Op.String() == "<-" {
+						bad("channel receive")
+					}
+				case *ast.BinaryExpr:
+					if op := v.Op.String(); op == "/" || op == "%" {
+						bad("division")
+					}
+				case *ast.GoStmt, *ast.DeferStmt, *ast.FuncLit, *ast.RangeStmt, *ast.ForStmt:
+					bad("control construct other than if")
+				}
+				return true
+			})
+			where := "compose/" + file + ": deferred recover handler of taskManager.executor only assigns, queues the task and calls whitelisted functions"
+			if !clean {
+				where += " (found: " + why + ")"
+			}
+			out = append(out, boolFact("executorRecoverHandlerClean", clean && queued, where))
+		}
+	}
 	return out
+}
+
+// c13LockCall: statement `<x>.Lock()`; returns the text of <x>.
+func c13LockCall(s ast.Stmt) (string, bool) {
+	es, ok := s.(*ast.ExprStmt)
+	if !ok {
+		return "", false
+	}
+	ce, ok := es.X.(*ast.CallExpr)
+	if !ok || len(ce.Args) != 0 {
+		return "", false
+	}
+	se, ok := ce.Fun.(*ast.SelectorExpr)
+	if !ok || se.Sel.Name != "Lock" {
+		return "", false
+	}
+	return exprString(se.X), true
 }
